@@ -340,6 +340,14 @@ fn scenario(max_threads: usize, max_ops: usize) {
                 let k = if max_ops <= 1 { 1 } else { rng.gen_range(1..=max_ops) };
                 let mut v: Vec<Op> = Vec::new();
                 for _ in 0..k {
+                    // repeats of an earlier query of this thread (anything remembered between calls -
+                    // a memo, a cache with eviction - answers those)
+                    if v.len() >= 2 && rng.gen_range(0..4u32) == 0 {
+                        let j = rng.gen_range(0..v.len());
+                        let op = v[j].clone();
+                        v.push(op);
+                        continue;
+                    }
                     let op = draw_op(v.last());
                     v.push(op);
                 }
@@ -461,7 +469,7 @@ impl<S: Scheduler> Scheduler for Recording<S> {
 /// Legendre symbol against Euler's criterion on structured inputs (powers of two times small odd
 /// numbers, boundary values), each with a wall-clock guard so that a non-terminating routine is
 /// reported instead of stalling the engine.
-fn pure_preflight() -> Result<(), String> {
+fn pure_preflight(sdir: Option<String>) -> Result<(), String> {
     use ark_ff::Field;
     let f = fq();
     let mut xs: Vec<BigUint> = vec![BigUint::from(0u32), BigUint::from(1u32), &f.p - 1u32, rd::zeta().clone()];
@@ -481,7 +489,15 @@ fn pure_preflight() -> Result<(), String> {
         let slot: Arc<std::sync::Mutex<Vec<(i8, Option<BigUint>)>>> = Arc::new(std::sync::Mutex::new(Vec::new()));
         let slot2 = slot.clone();
         let r = std::panic::catch_unwind(std::panic::AssertUnwindSafe(move || {
-            shuttle::check_random(
+            // same failure-persistence setting as the scenario's runner: shuttle installs its panic hook
+            // once per process, with the setting of whichever runner comes first
+            let mut cfg = shuttle::Config::new();
+            cfg.silence_warnings = true;
+            cfg.failure_persistence = match &sdir {
+                Some(d) => shuttle::FailurePersistence::File(Some(d.into())),
+                None => shuttle::FailurePersistence::Print,
+            };
+            shuttle::Runner::new(shuttle::scheduler::RandomScheduler::new_from_seed(1, 1), cfg).run(
                 move || {
                     let mut out = Vec::new();
                     for (i, x) in xs2.iter().enumerate() {
@@ -496,7 +512,6 @@ fn pure_preflight() -> Result<(), String> {
                     }
                     *slot2.lock().unwrap() = out;
                 },
-                1,
             );
         }));
         let msg = r.map_err(|p| {
@@ -596,7 +611,7 @@ fn main() {
     }
     let _ = inputs();
     if preflight {
-        if let Err(msg) = pure_preflight() {
+        if let Err(msg) = pure_preflight(sdir.clone()) {
             println!("{}", msg);
             let doc = json!({"seed": seed, "executions": 0, "steps": 0, "ops": 0, "contended_executions": 0, "contended_entries": 0,
                 "cross_cell_overlap": 0, "cells_initialised": 0, "distinct_cells": 0, "interleaving_digests": [], "digit_cover": [],
